@@ -470,7 +470,57 @@ func scNoOpFloat(i int, r interface {
 	return specials[r.Intn(len(specials))]
 }
 
+// scHuge: "for all finite magnitudes" - beyond the largest prefix the largest prefix is used and the
+// number is still the value (auxiliary: the model's grid ends at ~1100 Ti).
+func scHuge() Verdict {
+	for _, cls := range []string{"dec", "bin"} {
+		top, fac := "T", 1e12
+		if cls == "bin" {
+			top, fac = "Ti", math.Ldexp(1, 40)
+		}
+		for _, x := range []float64{math.Ldexp(1, 51), math.Ldexp(1, 57), math.Ldexp(1, 58), math.Ldexp(1, 59), math.Ldexp(1, 60), math.Ldexp(1, 63),
+			math.Ldexp(1, 64), 1e18, 1e19, 3e25, 1e30, 1e100, 1e300, math.MaxFloat64, -math.Ldexp(1, 59), -1e19, -math.MaxFloat64} {
+			for _, arg := range [][]float64{{x}, {x, 2 * x / 3 * 2}, {0, x}} {
+				var out string
+				concrete := fmt.Sprintf("CommonScale(%v, %s).Format(%v)", arg, cls, x)
+				func() {
+					defer func() {
+						if r := recover(); r != nil {
+							out = fmt.Sprint("panic: ", r)
+						}
+					}()
+					out = benchunit.CommonScale(arg, scClass(cls)).Format(x)
+				}()
+				p, ok := scParse(out)
+				if strings.HasPrefix(out, "panic: ") {
+					v := fail("panic", "%s: %s", concrete, out)
+					v.Concrete = concrete
+					return v
+				}
+				if !ok || p.pfx != top {
+					v := fail("huge-magnitude-prefix", "%s = %q, want a number with prefix %s", concrete, out, top)
+					v.Concrete = concrete
+					return v
+				}
+				m, err := strconv.ParseFloat(strings.TrimSuffix(out, top), 64)
+				unit := math.Pow(10, -float64(len(p.fp)))
+				if err != nil || math.Abs(m-x/fac) > 0.5*unit+1e-9*math.Abs(m) {
+					v := fail("huge-magnitude-value", "%s = %q, which is %v %s, not %v %s", concrete, out, m, top, x/fac, top)
+					v.Concrete = concrete
+					return v
+				}
+			}
+		}
+	}
+	return pass()
+}
+
 func scReplayNoOp(c *scCase) Verdict {
+	if c.Salt == 0 {
+		if v := scHuge(); !v.OK {
+			return v
+		}
+	}
 	r := newRand(7100 + c.Salt)
 	for i := 0; i < c.N; i++ {
 		x := scNoOpFloat(i, r)
